@@ -9,7 +9,7 @@ from simfile.ssc import SSCSimfile, SSCChart
 
 LAST = None
 MULTI = ("ATTACKS", "DISPLAYBPM")
-PKEYS = ["TITLE", "title", "ATTACKS", "NOTES", "NOTEDATA", "ZZFRESH", "Title", "attacks", "notes", "DISPLAYBPM", "NoteData"]
+PKEYS = ["TITLE", "title", "ATTACKS", "NOTES", "NOTEDATA", "ZZFRESH", "Title", "attacks", "notes", "DISPLAYBPM", "NoteData", "NOTES2", "notes2"]
 K2 = 6  # the second symbolic parameter's key is one of the first six spellings
 PREFIXES = [
     [],
